@@ -130,15 +130,117 @@ class C05Sim(_OrigSim):
             del T.ScriptedGen.log[log_len:]
 
 
+class NonUniformSim(C05Sim):
+    """(audit repair) outcome generator class the shared runner never produces: staircase rows whose non-zero entries
+    DIFFER (3,5,2,0,..), as wire fencing gives them (frame counts per band, doubled for L->R paths); repex_tie's
+    `random_new_weights` only ever produces (w,w,w,0,..)."""
+
+    def random_new_weights(self, md, rng):
+        ws = []
+        for ens_num in md["picked"]:
+            if ens_num == -1:
+                ws.append([1])
+            else:
+                last = rng.randrange(ens_num, self.n_ens - 1) if self.n_ens - 1 > ens_num else ens_num
+                last = min(last, self.n_ens - 2)
+                ws.append([rng.choice([1, 2, 3, 5, 17]) if i <= last else 0 for i in range(self.n_ens - 1)] + [0])
+        return ws
+
+
+def cv_config(n_ens, seed):
+    """deterministic (the same in every life of a chain of restarts) interfaces / wire-fencing flags / cap"""
+    r = random.Random(f"cvcfg {n_ens} {seed}")
+    intfs = [0]
+    for _ in range(n_ens - 1):
+        intfs.append(intfs[-1] + r.choice([2, 3]))
+    mv = [r.random() < 0.6 for _ in range(n_ens - 1)]
+    wf_top = max([lam for lam, m in zip(intfs[:-1], mv) if m], default=intfs[0])
+    caps = [c for c in range(wf_top + 2, intfs[-1] + 1)]
+    cap = None if (r.random() < 0.5 or not caps) else r.choice(caps)
+    return intfs, mv, cap
+
+
+def cv_walk(rng, intfs, mv, cap, ens):
+    """an ORDER SEQUENCE of an accepted path of plus ensemble `ens`: starts below lambda_0, MD steps of +1/+2 up and
+    -1/-2 down (never over a whole wire-fencing band: every band [lambda_k, cap) is at least 2 wide), crosses its own
+    interface, ends below lambda_0 or above the last interface"""
+    lo, hi = intfs[0], intfs[-1]
+    for _try in range(200):
+        x = lo - rng.choice([1, 2])
+        ops = [x]
+        target = rng.randint(intfs[ens], hi + 1)
+        while x < target and len(ops) < 80:
+            x += rng.choice([1, 1, 2])
+            ops.append(x)
+            if x > hi:
+                break
+        while lo <= x <= hi and len(ops) < 160:
+            x += rng.choice([-2, -1, -1, 1]) if x < hi else rng.choice([-1, 1])
+            ops.append(x)
+        if max(ops) >= intfs[ens] and (ops[-1] < lo or ops[-1] > hi) and CV.py_no_jump_cfg(intfs, mv, cap, ops) \
+                and all(lo <= y <= hi for y in ops[1:-1]):
+            return ops
+    raise RuntimeError("no legal order sequence generated")
+
+
+class CvSim(C05Sim):
+    """(audit repair) histories whose weight vectors COME FROM ORDER SEQUENCES: every accepted path is an order sequence
+    without a jump over a wire-fencing band; the REAL calc_cv_vector computes its weights (wire-fencing flags, cap),
+    which go through the real treat_output; the model gets the same sequence (`cvfam`: Lean `cvVector` must give the
+    same vector, staircase, `noJumpCfg` true) and then the vector (`treat`).  Ties `histOk_of_cv_history_wf` end to end."""
+
+    def __init__(self, *a, **k):
+        super().__init__(*a, **k)
+        self.intfs, self.mv, self.cap = cv_config(self.n_ens, self.cfg["simulation"]["seed"])
+        self.cfg["simulation"]["interfaces"] = [float(x) for x in self.intfs]
+        self.cfg["simulation"]["shooting_moves"] = CV.moves_of(self.mv)
+        if self.cap is not None:
+            self.cfg["simulation"]["tis_set"]["interface_cap"] = float(self.cap)
+        self.cv_bad = []
+
+    def _vector(self, ops, ens, rng_label=""):
+        from infretis.core.tis import calc_cv_vector
+        if ens < 0:
+            w = calc_cv_vector(CV.real_path(ops), self.st.interfaces, self.st.mc_moves, False, cap=self.st.cap, minus=True)
+            self.emit(f"cvminus {int(self.intfs[0])} {CV.lst([int(o) for o in ops])}", "ws=" + ",".join(str(int(x)) for x in w), "cvminus")
+            return [float(x) for x in w]
+        w = [float(x) for x in calc_cv_vector(CV.real_path(ops), self.st.interfaces, self.st.mc_moves, False, cap=self.st.cap)]
+        stair = CV.py_stair(w)
+        self.emit(f"cvfam {CV.cfg_tokens(self.intfs, self.mv, self.cap)} {CV.lst([int(o) for o in ops])}",
+                  f"ws={','.join(str(int(x)) for x in w)} stair={1 if stair else 0} nojump=1", "cvfam")
+        if not stair or w[ens] == 0:
+            self.cv_bad.append((ens, ops, w))
+        return w
+
+    def load_initial(self, paths_by_slot=None, fracs=None):
+        if paths_by_slot is None:
+            r = random.Random(f"cvinit {self.n_ens} {self.cfg['simulation']['seed']}")
+            paths_by_slot = [T.FakePath(0, self._vector([1, -1, -2, 1], -1))] + [
+                T.FakePath(i, self._vector(cv_walk(r, self.intfs, self.mv, self.cap, i - 1), i - 1)) for i in range(1, self.n_ens)]
+        return super().load_initial(paths_by_slot, fracs)
+
+    def random_new_weights(self, md, rng):
+        ws = []
+        for ens_num in md["picked"]:
+            if ens_num == -1:
+                ws.append(self._vector([rng.choice([1, 2]), -1, rng.choice([-1, -3]), 1], -1))
+            else:
+                ws.append(self._vector(cv_walk(rng, self.intfs, self.mv, self.cap, ens_num), ens_num))
+        return ws
+
+
+SIM_CLASSES = {"nonuniform": NonUniformSim, "cv": CvSim}
+
+
 class _UseSim:
     """run repex_tie's history runners with C05Sim (restored afterwards: run(ctx) may be called again)"""
 
-    def __init__(self, screen=0, load_every=1):
-        self.screen, self.load_every = screen, load_every
+    def __init__(self, screen=0, load_every=1, cls=None):
+        self.screen, self.load_every, self.cls = screen, load_every, cls or C05Sim
 
     def __enter__(self):
         C05Sim.screen, C05Sim.load_every = self.screen, self.load_every
-        T.Sim = C05Sim
+        T.Sim = self.cls
 
     def __exit__(self, *exc):
         T.Sim = _OrigSim
@@ -208,12 +310,16 @@ def predicates(ctx, chain, label):
                 tn = 10 ** 18
             # empty slots ("-") were reported above as live-paths-not-distinct; judge the numbers that are there
             nums = [int(x) for x in live if x.isdigit()]
-            newc = [x for x in nums if x not in ever]
-            for x in newc:
-                if seg == 0 and tag == "loaded":
-                    continue
-                if x <= max_seen and x in ever:
-                    ctx.fail("C05:path-number-reused", f"path number {x} handed out twice", rep)
+            # (audit repair) the old form of this predicate could never fire: it looked only at numbers NOT in `ever`
+            # and then asked for `x in ever`.  Now: a number that ENTERS the live set between two snapshots of one life
+            # must never have been live before (in this or an earlier life) and must lie above every number seen so far.
+            if prev_live is not None:
+                prev_nums = {int(x) for x in prev_live if x.isdigit()}
+                for x in nums:
+                    if x not in prev_nums and (x in ever or x <= max_seen):
+                        ctx.fail("C05:path-number-reused",
+                                 f"path number {x} enters the live set although it was handed out before "
+                                 f"(largest number seen so far {max_seen})", rep)
             for xi in nums:
                 if xi >= tn:
                     ctx.fail("C05:path-number-not-below-counter", f"live path {xi} but traj_num {tn}", rep)
@@ -243,9 +349,10 @@ def one(ctx, params, with_model, outs):
     rich = bool(params[8]) if len(params) > 8 else False
     screen = int(params[9]) if len(params) > 9 and params[9] is not None else 0
     first0 = bool(params[10]) if len(params) > 10 else False
+    wclass = params[11] if len(params) > 11 else None
     label = (f"n_ens={n_ens} workers={workers} steps={steps} seed={seed} wf={wf} restarts={list(restarts)} "
              f"acc_p={acc} rich={rich} ctxseed={ctx.seed}" + (f" screen={screen}" if screen else "")
-             + (" first-completes-[0-]" if first0 else ""))
+             + (" first-completes-[0-]" if first0 else "") + (f" weights={wclass}" if wclass else ""))
     rep0 = {"history": label, "params": list(params), "ctxseed": ctx.seed}
     cwd0 = os.getcwd()
     old = signal.signal(signal.SIGVTALRM, _on_vtalrm)
@@ -260,7 +367,8 @@ def one(ctx, params, with_model, outs):
                     return i
             return _r.randrange(len(inflight))
     try:
-        with _UseSim(screen=screen, load_every=1 if (ctx.quick and steps <= 60) or not ctx.quick else 3):
+        with _UseSim(screen=screen, load_every=1 if (ctx.quick and steps <= 60) or not ctx.quick else 3,
+                     cls=SIM_CLASSES.get(wclass)):
             sim = T.run_history(ctx, n_ens, workers, steps, seed=seed, wf=wf, restarts=tuple(restarts), acc_p=acc,
                                 rng=random.Random(label), rich_init=rich, chooser=chooser)
     except Stall as e:
@@ -285,6 +393,12 @@ def one(ctx, params, with_model, outs):
     try:
         predicates(ctx, chain, label)
         restart_loads(ctx, sim, label)
+        for sm in chain:
+            for (ens, ops, w) in getattr(sm, "cv_bad", []):
+                # theorem cv_vector_family_of_no_jump on the real vector of a path of the history
+                ctx.fail("C05:cv-vector:no-jump-path-outside-family",
+                         f"accepted path {ops} of ensemble {ens} (no jump over a wire-fencing band, crosses its interface): "
+                         f"calc_cv_vector gave {w}", dict(rep0, ops=ops, ens=ens))
     except Exception as e:  # noqa: BLE001  (never on the unchanged tree: a state the predicates cannot even read)
         ctx.fail("C05:state-not-judgeable", f"the recorded sampler state could not be judged: {type(e).__name__}: {e}", rep0)
     for sm in chain:
@@ -299,6 +413,20 @@ def one(ctx, params, with_model, outs):
 
 # ----------------------------------------------------------------------------- crafted sort states (d)
 SORT_LOG = []     # (label, W before sort_trajstate, real swaps, n, model iterations | None) — judged by CV.judge_sort_log
+SORTST_LOG = []   # (label, `sortst` driver line, real answer, replay params, in_family) — judged by CV.judge_sortst
+
+
+def sortst_line(st, n_ens):
+    """the crafted state of the real object as a `sortst` request of the C05 driver (Lean `sortTrajstate` itself)"""
+    W = [[float(x) for x in r] for r in st.state]
+    trajs = [(-1 if t == "" else int(t.path_number)) for t in st._trajs]
+    return (f"sortst {int(st.toinitiate)} {CV.mat_tokens(W)} {CV.lst(trajs)} {CV.lst([1 if l else 0 for l in st._locks])}")
+
+
+def sortst_answer(st, swaps):
+    W = ";".join(",".join(CV.frac_token(float(x)) for x in r) for r in st.state)
+    trajs = ",".join("-" if t == "" else str(t.path_number) for t in st._trajs)
+    return f"W={W} trajs={trajs} iters={swaps}"
 
 
 def sort_case(ctx, n_ens, rng, idx):
@@ -353,12 +481,15 @@ def sort_case(ctx, n_ens, rng, idx):
         locks_before = [int(x) for x in st._locks]
         n_bad = sum(1 for i in range(n_ens) if not locks_before[i] and st.state[i][i] == 0)
         err = None
+        line = sortst_line(st, n_ens)
         try:
             st.sort_trajstate()
         except Exception as e:  # noqa: BLE001
             err = e
         after = [(st._trajs[i].path_number, [float(x) for x in st.state[i]]) for i in range(n_ens)]
         rep = dict(rep0, before=before, after=after, locks=locks_before)
+        SORTST_LOG.append((label, line, "err:stall" if isinstance(err, Stall) else (CV.err_kind(err) if err is not None
+                           else sortst_answer(st, int(getattr(sim, "_swaps", 0)))), ["sort", n_ens, idx], True))
         if isinstance(err, Stall):
             ctx.fail("C05:stall", f"crafted state with {n_bad} zero diagonals: {err}", rep)
         elif err is not None:
@@ -399,6 +530,142 @@ def sort_case(ctx, n_ens, rng, idx):
             os.chdir(cwd0)
         except OSError:
             pass
+
+
+def sort_off_case(ctx, n_ens, idx):
+    """Crafted states OUTSIDE the family, where the `while` loop of sort_trajstate itself fails — judged only for
+    model/code agreement (Lean `sortTrajstate` through the driver op `sortst`): which error, or the stall.
+      kind 0  a hole row (1,..,0,1,0) twice and the rows of the open finding: the loop swaps two slots forever
+      kind 1  a full plus row in slot 0 and the minus row in a plus slot: `list(row[1:-1]).index(0)` -> ValueError
+      kind 2  two rows that are both zero in the column asked for: `avail.index(1)` -> ValueError
+      kind 3  as kind 2 but the only row with a non-zero entry there is LOCKED (its path is in locked_paths())"""
+    kind = idx % 4
+    label = f"sort-off-case n_ens={n_ens} kind={kind} ctxseed={ctx.seed}"
+    rep0 = {"history": label, "params": ["sortoff", n_ens, idx], "ctxseed": ctx.seed}
+    cwd0 = os.getcwd()
+    old = signal.signal(signal.SIGVTALRM, _on_vtalrm)
+    signal.setitimer(signal.ITIMER_VIRTUAL, 20.0)
+    sim = None
+    try:
+        with _UseSim(screen=0, load_every=0):
+            sim = T.Sim(ctx, n_ens, max(1, n_ens - 1), 50, seed=0, rng=random.Random(label))
+        st = sim.st
+        sim.load_initial()
+        m = n_ens - 1                         # number of plus columns
+
+        def row(nonzero):
+            return [0] + [1 if c in nonzero else 0 for c in range(m)] + [0]
+
+        rows = {e: row(range(0, e)) for e in range(1, n_ens)}       # slot e: staircase valid exactly up to e
+        locked = []
+        if kind == 0 and n_ens >= 5:
+            # the shape of the open finding (Lean `exHole`): two hole rows (1,..,1,0,1) below, then (1,..,1,1,0) and
+            # (1,..,1,0,0) in the two top slots: the loop swaps the two top slots forever
+            c3 = n_ens - 2
+            hole = row([c for c in range(m) if c != c3 - 1])
+            rows[n_ens - 4], rows[n_ens - 3] = hole, hole
+            rows[c3], rows[n_ens - 1] = row(range(0, c3)), row(range(0, c3 - 1))
+        elif kind == 0:
+            hole = row([c for c in range(m) if c != m - 2])
+            rows[n_ens - 2], rows[n_ens - 1] = hole, row(range(0, m - 1))
+        elif kind == 1:
+            st.state[0, :] = row(range(0, m))
+            rows[1] = [1] + [0] * n_ens
+        elif kind == 2:
+            rows[n_ens - 1] = row(range(0, m - 1))
+        else:
+            rows[n_ens - 1], rows[n_ens - 2] = row(range(0, m - 1)), row(range(0, m))
+            locked = [n_ens - 2]
+        for e in range(1, n_ens):
+            st._trajs[e] = T.FakePath(100 + e, rows[e][1:])
+            st.state[e, :] = rows[e]
+        for e in range(n_ens):
+            st._locks[e] = 1 if e in locked else 0
+        st.toinitiate = -1
+        st._last_prob = None
+        line = sortst_line(st, n_ens)
+        err = None
+        try:
+            st.sort_trajstate()
+        except Exception as e:  # noqa: BLE001
+            err = e
+        in_prob = False
+        if err is not None and not isinstance(err, Stall):
+            import traceback
+            in_prob = any(fr.name == "inf_retis" for fr in traceback.extract_tb(err.__traceback__))
+        real = ("err:stall" if isinstance(err, Stall) else sortst_answer(st, int(getattr(sim, "_swaps", 0)))
+                if (err is None or in_prob) else CV.err_kind(err))
+        SORTST_LOG.append((label, line, real, ["sortoff", n_ens, idx], False))
+        ctx.count(1, branch="crafted-sort-off-family", kind=str(kind), real=real.split(" ")[0][:12])
+    except Stall as e:
+        ctx.fail("C05:stall", f"{e} (crafted off-family sort state, outside the loop)", rep0)
+    except Exception as e:  # noqa: BLE001
+        ctx.fail("C05:sampler-raised", f"crafted off-family sort state could not be built: {type(e).__name__}: {e}", rep0)
+    finally:
+        signal.setitimer(signal.ITIMER_VIRTUAL, 0)
+        signal.signal(signal.SIGVTALRM, old)
+        T.Sim = _OrigSim
+        if sim is not None:
+            try:
+                sim.close()
+            except Exception:  # noqa: BLE001
+                pass
+        try:
+            os.chdir(cwd0)
+        except OSError:
+            pass
+
+
+def malformed_outcomes(ctx, outs):
+    """(audit repair) the malformed stream of the history tie: an accepted move whose new weight vector is a FAMILY vector
+    but zero in its own ensemble (Lean `family_outcome_own_zero_counterexample`: add_traj's assertion), too short
+    (IndexError at `valid[ens]`) or too long (numpy refuses the row).  Real treat_output and the model must fail alike;
+    nothing here is a property failure."""
+    for n_ens in (3, 4, 5):
+        for kind in ("own-zero", "short", "long"):
+            label = f"malformed-outcome n_ens={n_ens} kind={kind} ctxseed={ctx.seed}"
+            cwd0 = os.getcwd()
+            sim = None
+            try:
+                with _UseSim(screen=0, load_every=0):
+                    sim = T.Sim(ctx, n_ens, 1, 10, seed=0, rng=random.Random(label))
+                sim.load_initial()
+                sim.op_initiate()
+                md = sim.op_prep({"mc_moves": sim.st.mc_moves, "interfaces": sim.st.interfaces, "cap": None})
+                sim.op_initiate()
+                sim.op_loop()
+                ws = []
+                for ens_num in md["picked"]:
+                    if ens_num == -1:
+                        ws.append({"own-zero": [0], "short": [], "long": [1, 0]}[kind])
+                    else:
+                        full = T.staircase(n_ens, ens_num, ens_num - 1, 1)      # staircase that stops below its own ensemble
+                        ws.append({"own-zero": full, "short": full[:ens_num], "long": T.staircase(n_ens, ens_num, ens_num, 1) + [0]}[kind])
+                try:
+                    sim.op_treat(md, "ACC", ws)
+                    real = "ok"
+                except Exception as e:  # noqa: BLE001
+                    real = CV.err_kind(e)
+                if real == "ok":
+                    ctx.fail("C05:malformed-outcome-accepted", f"treat_output accepted the weight vectors {ws} ({kind})",
+                             {"history": label, "params": None, "ctxseed": ctx.seed, "weights": ws})
+                ctx.count(1, branch="malformed-outcome", kind=kind, real=real)
+                if ctx._driver_ok:
+                    outs.append((sim, label))
+            except Exception as e:  # noqa: BLE001
+                ctx.fail("C05:sampler-raised", f"malformed-outcome case could not be run: {type(e).__name__}: {e}",
+                         {"history": label, "params": None, "ctxseed": ctx.seed})
+            finally:
+                T.Sim = _OrigSim
+                if sim is not None:
+                    try:
+                        sim.close()
+                    except Exception:  # noqa: BLE001
+                        pass
+                try:
+                    os.chdir(cwd0)
+                except OSError:
+                    pass
 
 
 # ----------------------------------------------------------------------------- restart at cstep 0 (c)
@@ -661,7 +928,7 @@ def run(ctx):
         for w in range(2, n_ens):
             for steps in (w - 1, w, w + 1):
                 plans.append((n_ens, w, steps, 0, False, (), 0.9, True, True, 0))
-            for left in (w, w - 1, 1):
+            for left in (w, w - 1, 1, 0):      # 0: the restarted life has nothing left (initiate() answers False at once)
                 steps = 8
                 plans.append((n_ens, w, steps, 0, False, (steps - left,), 0.9, True, True, 0))
     # (c) path number 0 / ensemble index 0 / seed 0: the first job to complete is the one that holds [0-] and
@@ -670,11 +937,22 @@ def run(ctx):
         for w in range(1, n_ens):
             plans.append((n_ens, w, 8, 0, False, (), 1.0, True, True, 0, True))
             plans.append((n_ens, w, 8, 0, False, (2,), 1.0, True, True, 1, True))
+    # (audit repair) outcome classes the shared generator never leaves: non-uniform staircase rows; weight vectors
+    # computed by the real calc_cv_vector from order sequences (wire fencing, caps), with restarts
+    for n_ens in (3, 4, 5, 6):
+        for w in sorted({1, n_ens - 1, max(1, n_ens // 2)}):
+            steps = 16 + 2 * n_ens
+            for wclass in ("nonuniform", "cv"):
+                for rep in range(1 if ctx.quick else 4):
+                    rs = (rng.randint(3, steps - 4),) if (rep + w) % 2 else ()
+                    plans.append((n_ens, w, steps, rng.randint(0, 9), wclass == "nonuniform", rs, rng.choice([0.6, 0.9]),
+                                  True, True, 0, False, wclass))
     outs = []
     del SORT_LOG[:]
+    del SORTST_LOG[:]
     chains = []
     for p in plans:
-        extra = (p[9] if len(p) > 9 else 0, p[10] if len(p) > 10 else False)
+        extra = (p[9] if len(p) > 9 else 0, p[10] if len(p) > 10 else False) + ((p[11],) if len(p) > 11 else ())
         with_model = p[7] and ctx._driver_ok
         ch = one(ctx, tuple(p[:7]) + (None, p[8] if len(p) > 8 else False) + extra, with_model, outs)
         if not with_model:
@@ -685,10 +963,16 @@ def run(ctx):
             for steps in ((w, 6) if ctx.quick else (1, w - 1, w, 6, 11)):
                 if steps >= 1:
                     cstep0_restart(ctx, n_ens, w, steps, (0, 1)[(n_ens + w) % 2], ctx._driver_ok, outs)
+    malformed_outcomes(ctx, outs)
     # (d) crafted matchable states with many zero diagonals
     for n_ens in range(3, 9):
         for idx in range(6 if ctx.quick else 40):
             sort_case(ctx, n_ens, rng, idx)
+    # (audit repair) states where the loop of sort_trajstate itself fails or never ends: model/code agreement
+    for n_ens in range(3, 8):
+        for idx in range(4):
+            sort_off_case(ctx, n_ens, idx)
+    CV.judge_sortst(ctx, SORTST_LOG)
     for sm, label in outs:
         try:
             mo = ctx.driver(sm.lines)
@@ -706,10 +990,12 @@ def run(ctx):
     CV.judge_sort_log(ctx, [e for e in SORT_LOG if e[1] is not None])
     # calc_cv_vector and load_paths on order sequences (wire fencing included)
     CV.run_cv(ctx)
+    CV.run_cvminus(ctx)
     CV.run_load(ctx, C05Sim)
-    if outs:
-        sm = outs[-1][0]
-        ctx.sample({"history": outs[-1][1], "snapshot": {k: sm.snaps[-1][1][k] for k in ("W", "trajs", "locks", "trajnum")}})
+    with_snaps = [(sm, lb) for sm, lb in outs if getattr(sm, "snaps", None)]
+    if with_snaps:
+        sm, lb = with_snaps[-1]
+        ctx.sample({"history": lb, "snapshot": {k: sm.snaps[-1][1][k] for k in ("W", "trajs", "locks", "trajnum")}})
     ctx.assumptions += [
         "histories are quantified over outcomes whose weight vectors are in the staircase family (C02's family)",
         "a hang is detected (a) by a swap counter inside the real sort_trajstate (more than n*n+4 swaps = the model's fuel) "
@@ -734,6 +1020,11 @@ def run(ctx):
 
 def replay(ctx, obj):
     r = obj.get("replay", {})
+    if r.get("what") == "calc_cv_vector-minus":
+        CV.run_cvminus(ctx, [(r["interfaces"], r["lambda_minus_one"], r["ops"])])
+        for f in ctx.fails:
+            print("still fails:", f["signature"], f["what"])
+        return 1 if ctx.fails else 0
     if not r.get("params") and r.get("what") not in ("calc_cv_vector", "load_paths"):
         print("no history parameters in this replay file:", r)
         return 1
@@ -749,8 +1040,14 @@ def replay(ctx, obj):
         CV.run_load(ctx, C05Sim, [(0, r["interfaces"], r["wf"], r["cap"], r["paths"])])
     elif ps and ps[0] == "sort":
         del SORT_LOG[:]
+        del SORTST_LOG[:]
         sort_case(ctx, int(ps[1]), ctx.rng, int(ps[2]))
         CV.judge_sort_log(ctx, [e for e in SORT_LOG if e[1] is not None])
+        CV.judge_sortst(ctx, SORTST_LOG, as_fail=True)
+    elif ps and ps[0] == "sortoff":
+        del SORTST_LOG[:]
+        sort_off_case(ctx, int(ps[1]), int(ps[2]))
+        CV.judge_sortst(ctx, SORTST_LOG, as_fail=True)
     elif ps and ps[0] == "cstep0":
         cstep0_restart(ctx, int(ps[1]), int(ps[2]), int(ps[3]), int(ps[4]), False, [])
     else:
